@@ -3,8 +3,10 @@
    gen_reroot_at_midpoint (Gen/Midpoint.v) is regenerated on every run from the AST of
    Tree.reroot_at_midpoint (py/dv/gen_midpoint.py), statement by statement, over the primitives of
    Model/C07GenMidPrims.v (which state the Python semantics relied upon; interface operations: the
-   distance-matrix queries, Node.distance_from_root, the six-statement edge split, Tree.reseed_at,
-   Tree.update_bipartitions - all given by C07Model's functions).  `self` = mkG tree rooting_flag;
+   distance-matrix queries, Node.distance_from_root, Tree.reseed_at, Tree.update_bipartitions - given by
+   C07Model's functions - and op_split_block, the pointer block of the method (the edge split): ONE
+   operation here, but its statements are compiled one by one over the heap by py/dv/gen_mutators.py
+   and section 2 below proves the compiled block equal to the operation).  `self` = mkG tree rooting_flag;
    pr = the pair max_pairwise_distance_taxa() returns (an input, as in the model); fresh = the identity
    of the node `_node.Node()` creates; lift maps the model's result (tree, flag) to that record.
    Hypotheses: node identities distinct, leaf taxa distinct, the pair consists of two different leaf taxa of
@@ -12,6 +14,8 @@
 From Coq Require Import ZArith List Bool Permutation.
 From DV Require Import Model.PyPrims Model.Tree Model.C07Model Model.C07Spec Model.C07GenMidPrims Gen.Midpoint
      Proofs.C07GenMidpoint Proofs.C07GenMidThms.
+From DV Require Model.Heap Model.HeapOps Model.MutPrims Gen.Mutators Model.C03GenInst Model.C03Split Proofs.C03Base
+     Proofs.C03GenSplit Proofs.C07GenSplit.
 Import ListNotations.
 Open Scope Z_scope.
 
@@ -87,3 +91,73 @@ Theorem gen_midpoint_nonvacuous :
   /\ NoDup (ids exg) /\ NoDup (leaf_taxa exg) /\ (2 <= length (t_kids exg))%nat /\ ~ In 99 (ids exg).
 Proof. exact gen_midpoint_example_l. Qed.
 Print Assumptions gen_midpoint_nonvacuous.
+
+(* ---------------------------------------------------------------------------------------------------
+   2. The pointer block (edge split), statement level.  Gen/Mutators.v
+   Tree_reroot_at_midpoint__edge_split is compiled from the statements of the block, one by one, whatever
+   their number and order (py/dv/gen_mutators.py; same locator and same parameter order as the
+   op_split_block call above).  HG = Model/Heap.v's heap as the object graph; WF = C03's invariant;
+   abs = the rose tree a heap represents; next h = the identity the next Node() receives. *)
+
+(* on every well-formed heap representing t, for every non-root node ci: the compiled statements,
+   applied to ci's parent and ci, complete, return the constructed node, leave a well-formed heap, and
+   the abstraction of that heap is the tree op_split_block returns (for whatever references to tail
+   and head the rose-tree program holds, head having the identity ci) *)
+Theorem gen_split_block_is_op :
+  forall (h : Heap.heap) (t : tree) (ci : Z) (H : tree) (hl tl : option Z) (tailn headn : node) (tid : Z),
+  C03Base.WF h -> Heap.abs h = Some t -> find_node ci t = Some H -> ci <> t_id t ->
+  nid tailn = Ok tid -> nid headn = Ok ci ->
+  exists ot h' t',
+    Heap.parent h ci = Some ot /\
+    Mutators.Tree_reroot_at_midpoint__edge_split C03GenInst.HG ot ci hl tl h = MutPrims.MOk (Heap.next h) h' /\
+    C03Base.WF h' /\ Heap.abs h' = Some t' /\
+    op_split_block (Heap.next h) (mkG t (Heap.rooted h)) tailn headn hl tl
+    = Ok (mkG t' (Heap.rooted h'), Some [T (Heap.next h) None None tl []]).
+Proof. exact C07GenSplit.gen_split_block_is_op_l. Qed.
+Print Assumptions gen_split_block_is_op.
+
+(* the whole else-branch: compiled block, then self.reseed_at(new_seed_node, False, su, False)
+   (HeapOps.reseed_at through the interface) = op_split_block, then op_reseed_at *)
+Theorem gen_mid_edge_branch :
+  forall (su : bool) (h : Heap.heap) (t : tree) (ci : Z) (H : tree) (hl tl : option Z) (tailn headn : node) (tid : Z),
+  C03Base.WF h -> Heap.abs h = Some t -> find_node ci t = Some H -> ci <> t_id t ->
+  nid tailn = Ok tid -> nid headn = Ok ci ->
+  exists ot h1 h2 t2 r2,
+    Heap.parent h ci = Some ot /\
+    Mutators.Tree_reroot_at_midpoint__edge_split C03GenInst.HG ot ci hl tl h = MutPrims.MOk (Heap.next h) h1 /\
+    MutPrims.x_reseed_at C03GenInst.HG (Heap.next h) false false su h1 = MutPrims.MOk tt h2 /\
+    C03Base.WF h2 /\ Heap.abs h2 = Some t2 /\
+    (do sn <- op_split_block (Heap.next h) (mkG t (Heap.rooted h)) tailn headn hl tl ;;
+     op_reseed_at (fst sn) (snd sn) false su false)
+    = Ok (mkG t2 r2).
+Proof. exact C07GenSplit.gen_mid_edge_branch_l. Qed.
+Print Assumptions gen_mid_edge_branch.
+
+(* the whole method at heap level with the GENERATED block inside (= HeapOps.reroot_at_midpoint,
+   Props/C03Gen.v reroot_at_midpoint_generated_split): whatever pair is given and whatever the search
+   finds, a completed call leaves a well-formed heap, is_rooted = True, the same unrooted tree *)
+Theorem heap_midpoint_generated_split :
+  forall (tx1 tx2 : Z) (ub su cb : bool) (h : Heap.heap) (t : tree) (h' : Heap.heap),
+  C03Base.WF h -> Heap.abs h = Some t -> (2 <= length (t_kids t))%nat -> NoDup (leaf_taxa t) ->
+  C03Split.reroot_at_midpoint_with (Mutators.Tree_reroot_at_midpoint__edge_split C03GenInst.HG) tx1 tx2 ub su cb h
+    = Heap.HOk h' ->
+  C03Base.WF h' /\ Heap.rooted h' = Some true /\
+  exists t', Heap.abs h' = Some t'
+    /\ Permutation (leaf_taxa t) (leaf_taxa t')
+    /\ (forall S, is_usplit t S <-> is_usplit t' S)
+    /\ total_length t' = total_length t
+    /\ (forall a b, dist a b t' = dist a b t).
+Proof. exact C07GenSplit.heap_midpoint_generated_split_l. Qed.
+Print Assumptions heap_midpoint_generated_split.
+
+(* the hypotheses are satisfiable: ((A:3,B:2):2,(C:2,D:4):2), node 4, and the whole call completes *)
+Theorem gen_split_block_nonvacuous :
+  C03Base.WF (Heap.of_tree C03GenSplit.exs_tree None) /\
+  Heap.abs (Heap.of_tree C03GenSplit.exs_tree None) = Some C03GenSplit.exs_tree /\
+  (exists H, find_node 4 C03GenSplit.exs_tree = Some H) /\ 4 <> t_id C03GenSplit.exs_tree /\
+  nid (Some [C03GenSplit.exs_tree]) = Ok 0 /\
+  (2 <= length (t_kids C03GenSplit.exs_tree))%nat /\ NoDup (leaf_taxa C03GenSplit.exs_tree) /\
+  exists h', C03Split.reroot_at_midpoint_with (Mutators.Tree_reroot_at_midpoint__edge_split C03GenInst.HG)
+               10 13 true true true (Heap.of_tree C03GenSplit.exs_tree None) = Heap.HOk h'.
+Proof. exact C07GenSplit.gen_split_block_hyps. Qed.
+Print Assumptions gen_split_block_nonvacuous.
